@@ -124,6 +124,7 @@ type View interface {
 	WriteF64(vals []float64) int
 	AppendSampleF64(f float64)
 	SetSampleF64(i int, f float64)
+	ChanSetF64(c, i int, f float64)
 }
 
 type buf[T signal.SignalTypes] struct {
@@ -214,6 +215,13 @@ func (v *buf[T]) SetSampleF64(i int, f float64) {
 	y := T(f)
 	begin()
 	v.b.SetSample(i, y)
+	end()
+}
+func (v *buf[T]) ChanSetF64(c, i int, f float64) {
+	y := T(f)
+	cv := v.channel(c)
+	begin()
+	cv.SetSample(i, y)
 	end()
 }
 func (v *buf[T]) OneSample(k int) View {
